@@ -28,7 +28,8 @@ static inline void rd_init(void)
   g_elast = 0; g_eseen = 0; g_alen = 0; g_aseen = 0;
 }
 /* the byte layer raises CdnsDecoderException / CdnsDecoderEnd on malformed or truncated input: any call may do so */
-#define MAYTHROW(z) if (g_exc) return z; if (nondet_bool()) { g_exc = nondet_bool() ? EXC_CdnsDecoderException : EXC_CdnsDecoderEnd; return z; }
+_Bool g_raised;   /* some decoder call has raised */
+#define MAYTHROW(z) if (g_exc) return z; if (nondet_bool()) { g_exc = nondet_bool() ? EXC_CdnsDecoderException : EXC_CdnsDecoderEnd; g_raised = 1; return z; }
 
 static inline void rd_value_done(void)   /* one complete value of the top-level map / element of the top-level array */
 {
@@ -48,6 +49,7 @@ static inline void rd_value(int kind, unsigned long v)
       rd_value_done();
     }
   } else if (rd_depth == 2) {
+    __CPROVER_assume(rd_idx2 < (1UL << 60));   /* the input has fewer than 2^60 array elements */
     if (rd_curkey == g_K && rd_idx2 == g_Ei) { g_elast = v; g_eseen = 1; }
     rd_idx2++;
     if (!rd_indef2) {
@@ -96,7 +98,7 @@ void CdnsDecoder__read_break(struct CdnsDecoder *d)
   if (!rd_break_pending) {
     /* not known to be at a stop code: the byte layer raises a format error unless the next byte happens to be one */
     _Bool ok = ((rd_depth == 1 && rd_indef1 && !rd_expect_val && !rd_done1) || (rd_depth == 2 && rd_indef2)) && nondet_bool();
-    if (!ok) { g_exc = EXC_CdnsDecoderException; return; }
+    if (!ok) { g_exc = EXC_CdnsDecoderException; g_raised = 1; return; }
   }
   rd_break_pending = 0;
   if (rd_depth == 2) { rd_depth = 1; if (rd_curkey == g_K) { g_alen = rd_idx2; g_aseen = 1; } rd_value_done(); }
